@@ -105,6 +105,33 @@ theorem C22_fails_asis (c : PipeCfg) (hc : c.AsIs) :
     have := (h 1 _ hx).2 ⟨2, 1, 2⟩ (by simp)
     simp at this
 
+/-- The run of `findings_proposed/cluster-candidate-restart-id-reuse.ops` at the level of the
+pipeline: store 1 proposes command 1 (request id 1) and restarts before the entry is applied;
+the new process image hands out request id 1 again (command 2); then the old entry is applied. -/
+def witnessRestart : List Op :=
+  [.propose 1 1 1, .restart 1, .propose 1 2 2, .deliver 1 [.cmd ⟨1, 1, 1⟩]]
+
+/-- **Why `ValidRun` excludes restarts** (and what the proposed repair does not cover): the id
+counter lives in memory, so after a restart an entry proposed by the previous process image
+completes a new client that was given the same id — whether or not completion is matched by
+proposer, because the proposer *is* the same peer. -/
+theorem C22_restart_breaks_matching (c : PipeCfg) (hc : c.Once) :
+    ValidRunR c Sys.init witnessRestart ∧ ¬ AnswerMatches (run c Sys.init witnessRestart) := by
+  rcases c with ⟨m, d, r⟩
+  have hd : d = true := hc
+  subst hd
+  refine ⟨?_, ?_⟩
+  · cases m <;> cases r <;>
+      simp [witnessRestart, ValidRunR, ValidOpR, ValidOp, step, propose, nextId, register, waiting, restart,
+        cmdOf, Sys.set, Sys.init]
+  · intro h
+    have hx : (⟨2, 1, 2, false, [⟨1, 1, 1⟩]⟩ : Waiter) ∈ ((run ⟨m, true, r⟩ Sys.init witnessRestart).st 1).waiters := by
+      cases m <;> cases r <;>
+        simp [witnessRestart, run, step, propose, nextId, register, waiting, restart, applyOne, looksUp,
+          completeW, cmdOf, Sys.set, Sys.init]
+    have := (h 1 _ hx).2 ⟨1, 1, 1⟩ (by simp)
+    simp at this
+
 /-- Non-vacuity of the headline theorem: in the repaired configuration the same run is valid,
 store 1's client keeps waiting, and store 2's client is answered by its own command. -/
 example : ValidRun PipeCfg.good false Sys.init witness ∧
